@@ -45,7 +45,8 @@ def FL(buffered=False, filters=(), cached=False, deco=False):
 # --------------------------------------------------------------------------------------------- source text
 
 class _Src:
-    def __init__(self, prefix=""):
+    def __init__(self, prefix="", except_class="Exception"):
+        self.except_class = except_class   # class named by every `% except` line
         self.out = []
         self.line = 1
         self.bol = True
@@ -159,7 +160,7 @@ def _node_src(s, n):
         s.emit("% try:\n")
         _body_src(s, n[1])
         s.fresh_line()
-        s.emit("% except Exception:\n")
+        s.emit("%% except %s:\n" % s.except_class)
         _body_src(s, n[2])
         s.fresh_line()
         s.emit("% endtry\n")
@@ -196,11 +197,11 @@ def _node_src(s, n):
         raise ValueError(n)
 
 
-def to_source(body, prefix=""):
+def to_source(body, prefix="", except_class="Exception"):
     """(source text, {anonymous block id: line}); `prefix`: of the URIs of the set (mako keys several registries
     by the module id derived from the URI, so every compiled set should get its own)"""
     from harness.tmpl_rt import PRELUDE
-    s = _Src(prefix)
+    s = _Src(prefix, except_class)
     s.emit(PRELUDE)
     _body_src(s, body)
     return "".join(s.out), dict(s.anon_line)
